@@ -69,6 +69,7 @@ def run(H, tier, rng):
                         return
 
 
-Harness("C04", "curve families x 5 metrics x 2 distances x thresholds {0.5,0.1,0.01} plus the exact endpoint-line costs of up to 12 (40) "
-        "sub-ranges of the curve (boundary values r == t); oracle: accept/reject by the statement, recursive partition with interior "
-        "arg-max of the requested distance", "n <= 13 quick / 20 thorough").main(run, replay)
+if __name__ == "__main__":
+    Harness("C04", "curve families x 5 metrics x 2 distances x thresholds {0.5,0.1,0.01} plus the exact endpoint-line costs of up to 12 (40) "
+            "sub-ranges of the curve (boundary values r == t); oracle: accept/reject by the statement, recursive partition with interior "
+            "arg-max of the requested distance", "n <= 13 quick / 20 thorough").main(run, replay)
